@@ -49,6 +49,9 @@ SHAPES = {
              ["url-list"]],
     # directories whose name is a proper prefix of a sibling's name (and siblings sorting around "/")
     "DP": [["disc1", "a.bin"], ["disc1", "sub", "b.bin"], ["disc10", "c.bin"], ["disc1.nfo"], ["disc1-extra", "d.bin"], ["disc"]],
+    # payload members named like the scratch files tools put next to a file they are writing
+    "DT": [["d", "x.bin"], ["d", "x.bin.part"], ["d", "x.bin.tmp"], ["d", "x.bin~"], ["d", ".x.bin.swp"], ["d", "x.bin.bak"],
+           ["d", "x.bin.new"], ["d", "x.bin.partial"], ["d", "x.bin.!qB"], ["d", "x.bin.crdownload"], ["d", "x.bin.1"], ["d", "x.bin.old"]],
     "DW": [["w%03d" % k] if k % 5 else ["grp%d" % (k // 50), "w%03d" % k] for k in range(200)],    # hundreds of files
     "DDEEP": [["n%d" % d for d in range(40)] + ["leaf.bin"], ["n%d" % d for d in range(20)] + ["mid.bin"], ["top.bin"]],
     "DM": [["m%02d" % k] if k % 3 else ["g%d" % (k // 3), "m%02d" % k] for k in range(14)],   # many files
